@@ -105,6 +105,23 @@ type c03Gen struct {
 	nw      map[string]*c03Ty
 	order   []string
 	alias   int
+	nested  int // copies of values whose type nests an aggregate by value
+}
+
+// nestsAgg reports whether a value of type t contains another array or struct
+// by value (a separate persisted object inside the value).
+func (g *c03Gen) nestsAgg(t *c03Ty) bool {
+	switch t.K {
+	case "arr":
+		return t.E.K == "arr" || t.E.K == "st"
+	case "st":
+		for _, f := range g.structs[t.S] {
+			if f.K == "arr" || f.K == "st" {
+				return true
+			}
+		}
+	}
+	return false
 }
 
 func (g *c03Gen) n(lo, hi int, l string) int { return rapid.IntRange(lo, hi).Draw(g.rt, l) }
@@ -467,6 +484,9 @@ func (g *c03Gen) rv(sc *c03Scope, t *c03Ty, self string) (string, []string, stri
 			if t.isRef() {
 				g.alias++
 			}
+			if g.nestsAgg(t) {
+				g.nested++
+			}
 			return q.X, q.Conds, q.Root
 		}
 	}
@@ -823,6 +843,9 @@ type c03Prog struct {
 	Vars  []string  `json:"vars"`
 	Funcs []c03Func `json:"funcs"`
 	Alias int       `json:"alias"` // number of alias-making constructs in the text
+	// NestedCopy counts statements copying, from a place, a value whose type
+	// nests an array or struct by value.
+	NestedCopy int `json:"nested_copy"`
 }
 
 // c03DrawProg draws a realm program.
@@ -1000,5 +1023,6 @@ func c03DrawProg(rt *rapid.T, pkg string, minFn, maxFn int) c03Prog {
 	sb.WriteString(g.renderFuncs())
 	prog.Src = sb.String()
 	prog.Alias = g.alias
+	prog.NestedCopy = g.nested
 	return prog
 }
